@@ -165,6 +165,20 @@ func c07Run(c *core.Ctx) *core.Result {
 		rs = newRefSender(src, R.Fork())
 		rs.Chunk = core.Pick(R, []string{"1", "7"})
 	}
+	if R.P(1, 8) {
+		// new files whose announced size is not the number of bytes that
+		// follow: what is stored is what was sent
+		off := map[string]int64{}
+		for _, e := range src.Entries {
+			if e.Type == tree.File && e.LinkTo == "" && src.GroupOf(e.Path) == "" && len(e.Data) > 0 && old.Get(e.Path) == nil && R.P(1, 2) {
+				off[e.Path] = int64(core.Pick(R, []int{1, 5, 4096, 40000, -1, -len(e.Data)}))
+			}
+		}
+		if len(off) > 0 {
+			rs.announceOtherSizes(off)
+			r.Count("sessions_with_announced_size_differing_from_content", 1)
+		}
+	}
 	rs.Inter = core.Pick(R, []string{"sequential", "roundrobin", "random", "reverse"})
 	rs.Race = R.P(1, 2) && !fanout
 	if huge {
